@@ -135,18 +135,39 @@ Definition dflt : str * (types * kind) := (nil, (w_nested_t0, KValue (VPrim PU8)
 (** split conjunctions only ([split] on an equation would try to convert both sides with the lazy machine) *)
 Ltac conj_vc := repeat (match goal with |- _ /\ _ => split; [vm_compute; reflexivity|] end); vm_compute; reflexivity.
 
-(** * 1. The merged type is not an upper bound in general: nested instances *)
-Theorem upper_bound_witness_nested :
-  exists a s c tm tr, run w_nested = inl (a, s) /\ In c w_nested /\
-                      merged_tree a (fst c) = Some tm /\ req_tree c = Some tr /\ resfree tm = true /\ resfree tr = true /\
-                      sub_b tm tr = false /\ sub_names_b tm tr = false.
+(** * 1. Regression (repository commits 0bf540d, 874f221): nested instances are merged by union, the aliased primitive
+      no longer panics.  Before the repairs [w_nested] gave a merged type that the second contributor's requirement was
+      not satisfied by, [w_disjoint] failed, [w_order] succeeded in some orders only, [w_panic] panicked. *)
+Example nested_now_united :
+  exists a s tm, run w_nested = inl (a, s) /\ merged_tree a [102;111;111] = Some tm /\
+                 forall c, In c w_nested -> exists tr, req_tree c = Some tr /\ sub_b tm tr = true.
 Proof.
-  eexists _, _, (nth 1 w_nested dflt), _, _.
-  split; [vm_compute; reflexivity|]. split; [cbn [nth w_nested In]; auto|].
-  conj_vc.
+  eexists _, _, _. split; [vm_compute; reflexivity|]. split; [vm_compute; reflexivity|].
+  unfold w_nested. intros c [<-|[<-|[]]]; eexists; (split; [vm_compute; reflexivity|]); vm_compute; reflexivity.
+Qed.
+Example disjoint_now_united :
+  exists a s tm, run w_disjoint = inl (a, s) /\ merged_tree a [102;111;111] = Some tm /\
+                 forall c, In c w_disjoint -> exists tr, req_tree c = Some tr /\ sub_b tm tr = true.
+Proof.
+  eexists _, _, _. split; [vm_compute; reflexivity|]. split; [vm_compute; reflexivity|].
+  unfold w_disjoint. intros c [<-|[<-|[]]]; eexists; (split; [vm_compute; reflexivity|]); vm_compute; reflexivity.
+Qed.
+(** a genuine conflict below a nested instance fails in every order that was explored here *)
+Example nested_conflict_fails :
+  (exists p e, run w_order = inr (p, AErr e)) /\
+  (exists p e, run [nth 1 w_order dflt; nth 2 w_order dflt; nth 0 w_order dflt] = inr (p, AErr e)) /\
+  (exists p e, run [nth 2 w_order dflt; nth 0 w_order dflt; nth 1 w_order dflt] = inr (p, AErr e)).
+Proof. split; [|split]; eexists _, _; vm_compute; reflexivity. Qed.
+Example alias_primitive_no_panic :
+  exists a s tm, run w_panic = inl (a, s) /\ merged_tree a [102;111;111] = Some tm /\
+                 forall c, In c w_panic -> exists tr, req_tree c = Some tr /\ sub_b tm tr = true.
+Proof.
+  eexists _, _, _. split; [vm_compute; reflexivity|]. split; [vm_compute; reflexivity|].
+  unfold w_panic. intros c [<-|[<-|[]]]; eexists; (split; [vm_compute; reflexivity|]); vm_compute; reflexivity.
 Qed.
 
-(** ... and component requirements with different imports (no contributor is satisfied) *)
+(** * 2. The merged type is not an upper bound in general: component requirements with different imports
+      (no contributor is satisfied) *)
 Theorem upper_bound_witness_component :
   exists a s tm, run w_comp = inl (a, s) /\ merged_tree a [102;111;111] = Some tm /\
                  forall c, In c w_comp -> exists tr, req_tree c = Some tr /\ sub_b tm tr = false.
@@ -155,29 +176,31 @@ Proof.
   unfold w_comp. intros c [<-|[<-|[<-|[]]]]; eexists; (split; [vm_compute; reflexivity|]); vm_compute; reflexivity.
 Qed.
 
-(** * 2. Success depends on the order of the contributors *)
+(** * 3. Success depends on the order, and failure without a conflict: one interface identifier under two import names.
+      x: interface `d` {f: func()};  y: anonymous {f: func(x: u8)};  y: interface `d` {g: func()}.
+      In the order x, y, y the third contribution is merged into y's own interface; in the order x, y(d), y the
+      second one is unified with x's interface `d`, y denotes that interface, and the third conflicts with x's `f`. *)
+Definition w_ids_t0 : types := mktypes 1 [] [] [mkfunc [] None false] [mkif (Some [100]) [] [([102], KFunc (mkid 1 0))]] [] [].
+Definition w_ids_t1 : types := mktypes 2 [] [] [mkfunc [([120], VPrim PU8)] None false] [mkif None [] [([102], KFunc (mkid 2 0))]] [] [].
+Definition w_ids_t2 : types := mktypes 3 [] [] [mkfunc [] None false] [mkif (Some [100]) [] [([103], KFunc (mkid 3 0))]] [] [].
+Definition w_ids : list (str * (types * kind)) :=
+  [([120], (w_ids_t0, KInstance (mkid 1 0))); ([121], (w_ids_t1, KInstance (mkid 2 0))); ([121], (w_ids_t2, KInstance (mkid 3 0)))].
+Definition w_ids' : list (str * (types * kind)) := [nth 0 w_ids dflt; nth 2 w_ids dflt; nth 1 w_ids dflt].
 Theorem order_witness :
   exists l l', Permutation l l' /\ (exists a s, run l = inl (a, s)) /\ (exists p e, run l' = inr (p, AErr e)).
 Proof.
-  exists w_order, [nth 1 w_order dflt; nth 2 w_order dflt; nth 0 w_order dflt].
-  split.
-  - unfold w_order. cbn [nth]. eapply perm_trans; [apply perm_swap|]. apply perm_skip. apply perm_swap.
-  - split; eexists _, _; (vm_compute; reflexivity).
+  exists w_ids, w_ids'. split; [unfold w_ids', w_ids; cbn [nth]; apply perm_skip; apply perm_swap|].
+  split; eexists _, _; vm_compute; reflexivity.
 Qed.
-
-(** * 3. Failure without a conflict: nested instances with disjoint exports *)
-Theorem failure_witness_disjoint :
-  exists p e ta tb tm, run w_disjoint = inr (p, AErr e) /\
-                       req_tree (nth 0 w_disjoint dflt) = Some ta /\ req_tree (nth 1 w_disjoint dflt) = Some tb /\
-                       tmerge ta tb = Some tm /\ sub_b tm ta = true /\ sub_b tm tb = true.
-Proof. eexists _, _, _, _, _. conj_vc. Qed.
-
-(** ... and a panic where the requirements are equal as trees *)
-Theorem panic_witness :
-  run w_panic = inr (1%nat, APanic) /\
-  exists ta tb, req_tree (nth 0 w_panic dflt) = Some ta /\ req_tree (nth 1 w_panic dflt) = Some tb /\
-                exists tm, tmerge ta tb = Some tm.
-Proof. split; [vm_compute; reflexivity|]. eexists _, _. split; [vm_compute; reflexivity|]. split; [vm_compute; reflexivity|]. eexists. vm_compute; reflexivity. Qed.
+(** the failing order has no conflict: the first contribution is alone under its name, the other two share a name and have
+    a merge that satisfies both *)
+Theorem failure_witness_shared :
+  exists l p e tb tc tm, run l = inr (p, AErr e) /\ length l = 3%nat /\
+    str_eqb (fst (nth 0 l dflt)) (fst (nth 1 l dflt)) = false /\ str_eqb (fst (nth 1 l dflt)) (fst (nth 2 l dflt)) = true /\
+    compat_spec_b (fst (nth 0 l dflt)) (fst (nth 1 l dflt)) = false /\
+    req_tree (nth 1 l dflt) = Some tb /\ req_tree (nth 2 l dflt) = Some tc /\
+    tmerge tb tc = Some tm /\ sub_b tm tb = true /\ sub_b tm tc = true.
+Proof. exists w_ids'. eexists _, _, _, _, _. conj_vc. Qed.
 
 (** * 4. Owned resources: two imports on one track, and a second round changes the state *)
 Theorem owner_witness :
